@@ -281,6 +281,21 @@ class Repo:
             elif isinstance(ch, (ast.If, ast.Try, ast.With, ast.For, ast.While, ast.ExceptHandler)):
                 self._index(m, ch, prefix, cls)
 
+    def with_inlined(self, fn, names):
+        """the function with the calls of its own class's (inherited) methods `names` inlined -> Fn (not registered in the index)"""
+        from .inline import inline_known
+        callees = {}
+        for nm in names:
+            m = fn.cls.method(nm) if fn.cls is not None else self.funcs.get('%s:%s' % (fn.file, nm))
+            if m is not None and m.node is not fn.node:
+                callees[nm] = (m.node, m.cls.node if m.cls is not None else None)
+        if not callees:
+            return fn
+        node, report = inline_known(fn.node, callees)
+        new = Fn(self, fn.qn, fn.mod, node, fn.cls)
+        new.inline_report = report
+        return new
+
     # ---------------------------------------------------------------- lookup
     def fn(self, qn):
         f = self.funcs.get(qn)
